@@ -785,6 +785,43 @@ def identity_with_raw_int(ctx, rule, quals):
     return n
 
 
+def member_attr_of_library_int(ctx, rule, quals):
+    """`p.name` / `p.value` where the parameter p is, at every call site of the program, one of the library's integer constants
+    (`socket.IPPROTO_ESP`, `socket.AF_INET6` are plain ints or IntEnum members depending on the constant - the IPPROTO_* ones are ints) or
+    a literal: an AttributeError waiting in whatever path reads it (typically an error report)"""
+    from ..sval import strip_ids
+    from .. import tq
+    n = 0
+    for q in quals:
+        fi = ctx.prog.functions.get(q)
+        if fi is None or not isinstance(fi.node, ast.FunctionDef):
+            continue
+        params = fi.call_params()
+        uses = [x for x in ast.walk(fi.node) if isinstance(x, ast.Attribute) and x.attr in ('name', 'value') and isinstance(x.ctx, ast.Load)
+                and isinstance(x.value, ast.Name) and x.value.id in params]
+        for x in uses:
+            n += 1
+            p = x.value.id
+            leaves = []
+            for g in ctx.prog.all_functions():
+                if not isinstance(g.node, ast.FunctionDef):
+                    continue
+                for c in ctx.sval(g).calls_to(qual=q):
+                    t = c.args.get(p)
+                    if t is None:
+                        continue
+
+                    def lv(t):
+                        return lv(t[2]) + lv(t[3]) if t[0] == 'cond' else [strip_ids(t)]
+                    leaves += lv(t)
+            plain = bool(leaves) and all((l[0] == 'global' and l[1].startswith('socket.IPPROTO_')) or
+                                         (l[0] == 'const' and isinstance(l[2], int)) for l in leaves)
+            ctx.check(not plain, rule, '%s: `%s` reads an enumeration attribute of a parameter that every caller fills with a plain integer '
+                      'constant (AttributeError)' % (fi.qual, src(x)), key=(rule, 'member-attr-of-int', fi.qual, src(x)), site=ctx.site(fi, x),
+                      detail={'values passed': [tq.text(l, 60) for l in leaves[:6]]})
+    return n
+
+
 def _enum_member(ctx, e, fi):
     ch = attr_chain(e)
     if not ch or '.' not in ch:
